@@ -292,6 +292,12 @@ func writeBodyStream(resp *protocol.Response, w network.Writer, sendBody bool) (
 	// stream from above ("at most N bytes"), so announcing N as Content-Length breaks the framing of every
 	// stream that ends before the limit.
 	contentLength := resp.Header.ContentLength()
+	if contentLength >= 0 && len(resp.Header.ContentLengthBytes()) == 0 && !resp.Header.MustSkipContentLength() {
+		// The head is not going to announce this length: the Content-Length was deleted after the stream
+		// was set (Header.Del resets the stored length to 0), or it was never stored because the status code
+		// at the time of SetBodyStream allowed no body. The length of the stream is unknown then.
+		contentLength = -1
+	}
 	if contentLength >= 0 {
 		if err = WriteHeader(&resp.Header, w); err == nil && sendBody {
 			if resp.ImmediateHeaderFlush {
